@@ -12,6 +12,7 @@ import random
 from .. import gen
 from ..engine import generic_shrink
 from ..compare import compare_texts, tied_groups, union_ties
+from ..world import target_kwargs
 from .common import (Sim, SimStore, run_once, violation, finish, shape_stats, set_knob, NEVER_FLUSH, components,
                      _contradiction_check_applies)
 
@@ -107,7 +108,7 @@ def _doc(triples, fmt, scen=None):
 
 def _kwargs(scen, **extra):
     kw = {}
-    kw.update(copy.deepcopy(scen["target"]))
+    kw.update(target_kwargs(scen["target"]))
     kw.update(copy.deepcopy(scen["options"]))
     kw["namespaces_dict"] = copy.deepcopy(scen["ns"])
     kw.update(extra)
